@@ -507,3 +507,34 @@ Theorem sampleSRs_rewards_flat : forall SS AA rewards s a,
   (expectedReward SS AA rewards s a == flat2 SS AA rewards s a)%Q.
 Proof. exact sampleSRs_rewards_lemma. Qed.
 Print Assumptions sampleSRs_rewards_flat.
+
+(* FactoredMatrix2D plusEqual (basis and matrix overloads; plusEqualSubset inside): the flat expansion of
+   the sum is the sum of the flat expansions, for any state/action tag relation (merge only happens when
+   both tags of one basis are contained, as sorted lists, in the other's; otherwise the basis is appended) *)
+Theorem plus_flat_2d : forall SS AA rhs fm s a,
+  fm_ok SS AA fm -> fm_ok SS AA rhs -> in_space SS s -> in_space AA a ->
+  (flat2 SS AA (plusEqualFM SS AA fm rhs) s a == flat2 SS AA fm s a + flat2 SS AA rhs s a)%Q
+  /\ fm_ok SS AA (plusEqualFM SS AA fm rhs).
+Proof. exact plusEqualFM_flat_lemma. Qed.
+Print Assumptions plus_flat_2d.
+
+Theorem plus_basis_flat_2d : forall SS AA fm b s a,
+  fm_ok SS AA fm -> bm_wf SS AA b -> bm_ne b -> in_space SS s -> in_space AA a ->
+  (flat2 SS AA (plusEqual2D SS AA fm b) s a == flat2 SS AA fm s a + entry2 SS AA b s a)%Q
+  /\ fm_ok SS AA (plusEqual2D SS AA fm b).
+Proof. exact plusEqual2D_flat_lemma. Qed.
+Print Assumptions plus_basis_flat_2d.
+
+Example ex_plus_2d_nonvacuous :
+  let SS := [2]%nat in let AA := [2;2]%nat in
+  let big := mkBm [0%nat] [0;1]%nat [[1;2;3;4];[5;6;7;8]]%Q in
+  let small := mkBm [0%nat] [1%nat] [[10;20];[30;40]]%Q in      (* action tag {1}: a non-prefix subset of {0,1} *)
+  fm_ok SS AA [big] /\ bm_wf SS AA small /\ bm_ne small /\
+  (flat2 SS AA (plusEqual2D SS AA [big] small) [1%nat] [1;0]%nat == 36)%Q.
+Proof.
+  cbv zeta. split; [|split; [|split]].
+  - constructor; [|constructor]. split; [repeat split; repeat constructor | split; discriminate].
+  - repeat split; repeat constructor.
+  - split; discriminate.
+  - vm_compute. reflexivity.
+Qed.
